@@ -263,12 +263,15 @@ PROPS["C10"]["assumptions"] = PROPS["C10"]["assumptions"] + [
     "gapped at once (e.g. (VROOT (NP (VP 1 4) 2) 3), and the repository's sample sentence): 'the corresponding automaton' "
     "of the property is read as the one the generator is written for (DESIGN 12)"]
 
-_pb("C03", "contract-based deductive verification (pyvc) of treeoutput.export_format for the clause 'absent lemma / morphology / edge can still be written' (contract shared with C02); bounded stand-in: the real CLI as a subprocess over all 4x5 format pairs, chains, encodings, gzip, directory mode",
+_pb("C03", "contract-based deductive verification (pyvc) of treeoutput.export_format for the clause 'absent lemma / morphology / edge can still be written' (contract shared with C02) and of the loop body of misc.options_dict (key:value option parsing) as a block contract; bounded stand-in: the real CLI as a subprocess over all 4x5 format pairs, chains, encodings, gzip, directory mode",
     "The clause that trees without lemma, morphology or edge information can still be written in the formats that have "
     "those fields is, for the export format (v3 and v4), the contract of export_format: '--' is written for each absent "
     "field, no exception is possible, nothing but the three defaults is stored (all obligations discharged, no bound). "
-    "Everything else of the property - conversions through the command line terminate successfully and are lossless for "
-    "every format pair, chain, encoding, compression and directory mode - is not a statement about a function within reach "
-    "of the verifier (argparse, files, codecs, process exit status) and is decided by the bounded stand-in only.",
-    "proof for the absent-field clause of the export writer, the property itself bounded (about 190 CLI runs in the quick "
-    "tier); 'other'")
+    "The option parser every command-line run goes through is proved per option string: without ':' the option maps to "
+    "True, otherwise the stripped option is split at ':' and its first part maps to int(second part) when that is all "
+    "digits, else to the second part as a string; exactly one entry is stored and no exception is possible (for ASCII "
+    "values). Everything else of the property - conversions through the command line terminate successfully and are "
+    "lossless for every format pair, chain, encoding, compression and directory mode - is not a statement about a function "
+    "within reach of the verifier (argparse, files, codecs, process exit status) and is decided by the bounded stand-in only.",
+    "proof for the absent-field clause of the export writer and for the option parser, the property itself bounded "
+    "(about 190 CLI runs in the quick tier); 'other'")
